@@ -248,7 +248,8 @@ def fz_of(dimnames):
 
 def py_sel(s):
     if s['k'] == 'int':
-        return int(s['v'])
+        # (numpy integers are no subclass of int)
+        return np.int64(s['v']) if s.get('np') else int(s['v'])
     if s['k'] == 'list':
         return [int(x) for x in s['v']]
     if s['k'] == 'bool':
@@ -266,6 +267,9 @@ CALLABLES = {
     'conv11f': lambda x: np.convolve(x, [1, 1], 'full'),
     'conv121s': lambda x: np.convolve(x, [1, 2, 1], 'same'),
     'first': lambda x: x[:1],
+    # scalar-returning callables (np.apply_along_axis drops the axis)
+    'npmax': np.max,
+    'npsum': np.sum,
 }
 # the convolutions above in the string form of convolve_dim: mode, weights
 CONVDEFS = {'conv11v': 'valid,1,1', 'conv11f': 'full,1,1',
@@ -613,7 +617,10 @@ def rsel(rnd, n, kinds=('int', 'slice', 'list')):
             bits[rnd.randrange(n)] = 1
         return {'k': 'bool', 'v': bits}
     if k == 'int':
-        return {'k': 'int', 'v': rnd.randint(-n, n - 1) if n > 0 else 0}
+        s = {'k': 'int', 'v': rnd.randint(-n, n - 1) if n > 0 else 0}
+        if rnd.random() < 0.3:
+            s['np'] = True
+        return s
     if k == 'list':
         m = rnd.randint(1, 3)
         return {'k': 'list', 'v': [rnd.randint(-n, n - 1) if n > 0 else 0
